@@ -70,6 +70,7 @@ structure P where
   chunkSize : Int := 0
   chunked : Bool := false
   chunkExt : Bool := false      -- the ';' of a chunk extension has been seen on the current chunk-size line
+  noBody : Bool := false        -- 1xx/204/304 response: ends with its header section (RFC 7230 §3.3.3 rule 1)
   headerExists : Bool := false
   bodyHeld : Nat := 0           -- BodyReader.left of the message under construction
   deriving Repr
@@ -191,8 +192,14 @@ def addTrailerKeys (p : P) : Except E P :=
     if keys.any forbiddenTrailer then throw E.badTrailerKey
     else pure { p with tr := [], trailer := keys.eraseDups }
 
+/-- status codes for which a response never has a body (RFC 7230 §3.3.3 rule 1) -/
+def bodilessStatus (code : Nat) : Bool := code / 100 == 1 || code == 204 || code == 304
+
+/-- after the framing fields have been validated: a bodiless response has no body whatever they say -/
+def noBodyOverride (p : P) : P := if p.noBody then { p with chunked := false, contentLength := 0 } else p
+
 def handleMessage (g : Cfg) (p : P) : P :=
-  { p with chunked := false, te := [], tr := [], cl := [], trailer := [], bodyHeld := 0,
+  { p with chunked := false, noBody := false, te := [], tr := [], cl := [], trailer := [], bodyHeld := 0,
            st := if g.isClient then .clientProtoBefore else .methodBefore }
 
 def setSpecial (p : P) (k v : Bytes) : P :=
@@ -258,7 +265,7 @@ def byteStep (g : Cfg) (p : P) (tok : Bytes) (c : UInt8) : Out P Ev :=
   | .statusCode =>
     if c == SP then
       match parseNat 10 isNum tok with
-      | some code => ok { p with statusCode := code, st := .statusBefore }
+      | some code => ok { p with statusCode := code, noBody := bodilessStatus code, st := .statusBefore }
       | none => er .atoi
     else if !isNum c then er .invalidStatusCode else ok p
   | .statusBefore =>
@@ -278,7 +285,8 @@ def byteStep (g : Cfg) (p : P) (tok : Bytes) (c : UInt8) : Out P Ev :=
     else if c == CR then
       match endOfHeaders p with
       | .error e => er e
-      | .ok p1 =>
+      | .ok p0 =>
+        let p1 := noBodyOverride p0
         match addTrailerKeys p1 with
         | .error e => er e [.contentLength p1.contentLength]
         | .ok p2 => ok { p2 with st := .headerOverLF } .next [.contentLength p1.contentLength]
